@@ -585,12 +585,13 @@ class SFG(Family):
     new = _gl("StateFlowGraphLoader", "state_flow_graph_schema_p2")
 
     def content(self, draw):
+        # a node's identity is (type, def stmt, index, id, context); everything else it carries (statement row, name,
+        # access path) is a function of that identity, as in the pipeline
         def node(dr):
             t = d_pick(dr, [1, 2, 3])
             if t == 1:
-                return {"t": 1, "stmt": d_int(dr, 120, 126), "op": d_pick(dr, OPS), "ctx": d_pick(dr, [-1, 159])}
-            return {"t": t, "stmt": d_int(dr, 120, 126), "index": d_int(dr, 0, 30), "id": d_int(dr, 100, 130),
-                    "ctx": d_pick(dr, [-1, 159]), "name": d_pick(dr, NAMES), "ap": d_access_path(dr)}
+                return {"t": 1, "stmt": d_int(dr, 120, 126), "ctx": d_pick(dr, [-1, 159])}
+            return {"t": t, "stmt": d_int(dr, 120, 126), "index": d_int(dr, 0, 30), "id": d_int(dr, 100, 130), "ctx": d_pick(dr, [-1, 159])}
         edges = []
         for _ in range(d_int(draw, 0, 3)):
             edges.append([node(draw), node(draw), [d_int(draw, 0, 11), d_int(draw, 120, 126), d_int(draw, 0, 2), d_int(draw, -1, 2),
@@ -600,11 +601,13 @@ class SFG(Family):
     def _node(self, cs, n):
         from lian.util.data_model import DataModel
         if n["t"] == 1:
-            dm = DataModel([{"operation": n["op"], "stmt_id": n["stmt"], "parent_stmt_id": 0, "start_row": 3, "target": "%vv1",
-                             "name": "f"}])
+            dm = DataModel([{"operation": OPS[n["stmt"] % len(OPS)], "stmt_id": n["stmt"], "parent_stmt_id": 0, "start_row": n["stmt"] - 100,
+                             "target": "%vv1", "name": "f"}])
             return cs.SFGNode(node_type=1, def_stmt_id=n["stmt"], context=n["ctx"], stmt=dm.access(0), name="")
+        name = NAMES[n["id"] % len(NAMES)]
+        ap = [] if n["index"] % 2 else [cs.AccessPoint(kind=9, key=name, state_id=100 + n["index"] % 10)]
         return cs.SFGNode(node_type=n["t"], def_stmt_id=n["stmt"], index=n["index"], node_id=n["id"], context=n["ctx"],
-                          name=n["name"], access_path=[cs.AccessPoint(kind=a, key=b, state_id=c) for a, b, c in n["ap"]])
+                          name=name, access_path=ap)
 
     def build(self, spec, idobj):
         cs = N._lian()[0]
